@@ -18,7 +18,7 @@ import (
 func (a *Analysis) site(rule string, fn *ssa.Function, pos token.Pos, expr, status, why string) {
 	if status == "violation" {
 		for _, e := range a.Exemptions {
-			if e.Func == core.QualName(fn) && e.Rule == rule && strings.Contains(expr, e.Contains) {
+			if (e.Func == core.QualName(fn) || a.helperOf(fn, e.Func, 0)) && e.Rule == rule && strings.Contains(expr, e.Contains) {
 				e.used = true
 				status, why = "exempt", e.Reason
 				break
@@ -26,6 +26,43 @@ func (a *Analysis) site(rule string, fn *ssa.Function, pos token.Pos, expr, stat
 		}
 	}
 	a.Sites = append(a.Sites, Site{Rule: rule, Fn: fn, Pos: pos, Expr: expr, Status: status, Why: why})
+}
+
+// helperOf: fn is a private helper of the function called name — every call of
+// fn in the module comes from that function or from another private helper of
+// it (a block extracted from the exempted function keeps its exemption).
+func (a *Analysis) helperOf(fn *ssa.Function, name string, depth int) bool {
+	n := a.P.Graph.Nodes[fn]
+	if n == nil || depth > 3 || len(n.In) == 0 {
+		return false
+	}
+	for _, e := range n.In {
+		c := e.Caller.Func
+		if c == fn || !a.P.InModule(c) {
+			continue
+		}
+		if core.QualName(c) != name && !a.helperOf(c, name, depth+1) {
+			return false
+		}
+	}
+	return true
+}
+
+// needleVariantAt: at this call of fn, is the argument bound to the paired needle
+// parameter a case-variant input value?
+func (a *Analysis) needleVariantAt(site ssa.CallInstruction, fn *ssa.Function) bool {
+	for i, p := range fn.Params {
+		if p != a.pairNeedle {
+			continue
+		}
+		args := site.Common().Args
+		if i >= len(args) {
+			return true
+		}
+		src := a.srcOf[args[i]]
+		return src == nil && a.varStr[args[i]] || src != nil && src.Variant && !a.cleansed[args[i]]
+	}
+	return true
 }
 
 // UnusedExemptions lists exemptions that matched no site (noted, never an alarm).
@@ -95,6 +132,18 @@ func (a *Analysis) constStringsOf(v ssa.Value, seen map[ssa.Value]bool, out *[]s
 			}
 		}
 		return true
+	case *ssa.Call:
+		// a helper that answers with one of several constants (`switch ch { case 'x': return "0123…" }`)
+		f := x.Common().StaticCallee()
+		if f == nil || !a.P.InModule(f) || len(f.Blocks) == 0 {
+			return false
+		}
+		for _, ret := range ssax.Returns(f) {
+			if len(ret.Results) != 1 || !a.constStringsOf(ret.Results[0], seen, out) {
+				return false
+			}
+		}
+		return true
 	case *ssa.Parameter:
 		fn := x.Parent()
 		idx := -1
@@ -110,6 +159,9 @@ func (a *Analysis) constStringsOf(v ssa.Value, seen map[ssa.Value]bool, out *[]s
 		for _, e := range n.In {
 			if !a.Scope[e.Caller.Func] {
 				continue
+			}
+			if a.pairNeedle != nil && a.pairNeedle.Parent() == fn && !a.needleVariantAt(e.Site, fn) {
+				continue // at this call the byte looked up is not case-variant input: its set is not judged
 			}
 			args := e.Site.Common().Args
 			if idx >= len(args) || !a.constStringsOf(args[idx], seen, out) {
@@ -920,7 +972,16 @@ func (a *Analysis) checkCall(fn *ssa.Function, c *ssa.Call) {
 				return
 			}
 			var consts []string
-			if a.constStringsOf(args[0], map[ssa.Value]bool{}, &consts) && len(consts) > 0 {
+			// a set and a byte that are both parameters of this helper are paired per call site
+			a.pairNeedle = nil
+			if np, ok := args[1].(*ssa.Parameter); ok {
+				if _, ok := args[0].(*ssa.Parameter); ok {
+					a.pairNeedle = np
+				}
+			}
+			okSets := a.constStringsOf(args[0], map[ssa.Value]bool{}, &consts)
+			a.pairNeedle = nil
+			if okSets && len(consts) > 0 {
 				for _, cs := range consts {
 					if !sigmaClosed(cs) {
 						a.site("O4", fn, c.Pos(), expr, "violation", fmt.Sprintf("an input byte is looked up in the accept set %q, which contains a letter without its other case", cs))
